@@ -9,7 +9,7 @@
    tools' chunks.  [answer c] is what the tool named by call [c] returns on [c]'s arguments
    (through the handler for an unknown name; [Err] if the name does not resolve). *)
 From Coq Require Import Permutation.
-From Eino Require Import Base.Util Model.Concat Model.ConcatMsg Model.Tools Model.ToolsMsg Model.ToolsOpts Proofs.Tools Proofs.ToolsMore Proofs.ToolsConcat Proofs.ToolsOpts.
+From Eino Require Import Base.Util Model.Concat Model.ConcatMsg Model.Tools Model.ToolsMsg Model.ToolsOpts Proofs.Tools Proofs.ToolsMore Proofs.ToolsConcat Proofs.ToolsOpts Proofs.ToolsAgree.
 Local Open Scope string_scope.
 
 (* N calls => exactly N messages, the i-th = (output of the i-th call's tool on its arguments,
@@ -306,6 +306,44 @@ Theorem tools_index_unknown :
 Proof. exact index_unknown. Qed.
 Print Assumptions tools_index_unknown.
 
+(* ---- converses, and agreement of Invoke and Stream on failure ------------------------------ *)
+(* Invoke returns messages ONLY IF the message is accepted and every call's tool answers (with
+   tools_invoke_spec: if and only if), and they are then the messages of tools_invoke_spec *)
+Theorem tools_invoke_only_if :
+  forall kind_of inv str handler pi calls msgs,
+    Permutation pi (seq 0 (List.length calls)) ->
+    tools_invoke kind_of inv str handler pi true calls = Ok msgs ->
+    calls <> []
+    /\ exists outs, Forall2 (fun c o => answer kind_of inv str handler c = Ok (TOk o)) calls outs
+                    /\ msgs = combine outs (map c_id calls).
+Proof. exact invoke_ok_only_if. Qed.
+Print Assumptions tools_invoke_only_if.
+
+Theorem tools_stream_open_only_if :
+  forall kind_of inv str handler pi calls ss,
+    Permutation pi (seq 0 (List.length calls)) ->
+    tools_stream_open kind_of inv str handler pi true calls = Ok ss ->
+    calls <> []
+    /\ exists sts, Forall2 (fun c s => s_answer kind_of inv str handler c = Ok (SOk (fst s) (snd s))) calls sts
+                   /\ ss = opened calls sts.
+Proof. exact stream_open_only_if. Qed.
+Print Assumptions tools_stream_open_only_if.
+
+(* tools that do not implement both run interfaces themselves: Invoke succeeds exactly when Stream
+   opens and every tool stream is non-empty and free of error items (then its concatenation is the
+   Invoke answer: tools_stream_concat; a stream with an error item never ends normally:
+   tools_stream_no_eof_after_error) — for every two completion orders *)
+Theorem tools_invoke_stream_agree :
+  forall kind_of inv str handler pi pi' calls,
+    Permutation pi (seq 0 (List.length calls)) ->
+    Permutation pi' (seq 0 (List.length calls)) ->
+    (forall c, In c calls -> kind_of (c_name c) <> Some KBoth) ->
+    ((exists msgs, tools_invoke kind_of inv str handler pi true calls = Ok msgs)
+     <-> (exists ss, tools_stream_open kind_of inv str handler pi' true calls = Ok ss
+                     /\ Forall (fun s : tstream => snd s = None /\ snd (fst s) <> []) ss)).
+Proof. exact invoke_stream_agree. Qed.
+Print Assumptions tools_invoke_stream_agree.
+
 (* ---- the call's option list (getToolsNodeOptions) and the per-implementation options ------- *)
 (* [get_node_opts l] = (the tool list the call brings, the tool options every execution is handed)
    after the options [l], in the order given.  Every WithToolOption counts, in order ... *)
@@ -595,4 +633,16 @@ Proof.
   - repeat constructor; discriminate.
   - intros l H; discriminate.
   - repeat constructor.
+Qed.
+
+(* agreement on failure, both sides false: "tb" fails in the middle of its stream *)
+Example agree_nonvacuous :
+  let str1 := fun (n a : string) => if String.eqb a "mid" then SOk ["x"] (Some 101%N) else SOk [n; a] None in
+  let calls := [mkCall "c0" "ta" "x"; mkCall "c1" "tb" "mid"] in
+  tools_invoke ex_kind ex_inv str1 None [1; 0]%nat true calls = Err 101
+  /\ tools_stream_open ex_kind ex_inv str1 None [0; 1]%nat true calls = Ok [("c0", ["ta:x"], None); ("c1", ["x"], Some 101%N)]
+  /\ (forall c, In c calls -> ex_kind (c_name c) <> Some KBoth).
+Proof.
+  vm_compute. repeat split; try reflexivity.
+  intros c [<-|[<-|[]]]; discriminate.
 Qed.
